@@ -36,10 +36,15 @@ Theorem C03_agree_dh : forall (c : Crypto) (h : hash) (top : res bytes) (es ep :
   conforming (KDFof c h ep) top (env_of es) -> covers (env_of es) (gke_l1 ep) (gke_l2 ep) ->
   K2 (KDFof c h ep) top (gke_l1 ep) (gke_l2 ep) = Ok seed ->
   0 < p -> u32b kl = true -> fitsb kl p = true -> fitsb kl g = true ->
+  (* since the repair of D16 the receiver checks the peer's key blob against the group's DH parameters (secret_parameters
+     of its envelope) and refuses the degenerate public values 0, 1, p - 1: both envelopes carry the group's parameters
+     and both public values are valid group elements (SP800-56A 5.6.2.3.1; Spec/KekSpec.v dh_pub_valid) *)
+  dh_group_params (gke_secret_params es) kl p g -> dh_group_params (gke_secret_params ep) kl p g ->
   let nbytes := bytes_of_bits (gke_priv_len ep) in
   let ybytes := kdf c h seed KDS_SERVICE (lit16z "DH") nbytes in
   let y := OS2IP ybytes in let x := OS2IP (rnd nbytes) in
   wfb ybytes = true -> wfb (rnd nbytes) = true ->
+  dh_pub_valid p (dh_public p g y) -> dh_pub_valid p (dh_public p g x) ->
   gke_l2_key ep = concat (ffk_field_list {| ffk_key_length := kl; ffk_field_order := p; ffk_generator := g; ffk_public_key := dh_public p g y |}) ->
   exists kid,
     new_kek c rnd ep = Ok (kek_dh c h p kl (dh_public p g y) x, kid) /\
@@ -112,8 +117,17 @@ Example C03_nonce_absent_l2_example : exists kek kid,
   new_kek sym (fun n => repeat 9 (Z.to_nat n)) d13_env = Ok (kek, kid) /\ get_kek sym d13_env kid = Ok kek.
 Proof. exact d13_repaired. Qed.
 Example C03_dh_example : forall kl, kl = 2 \/ kl = 5 -> exists kid kek,
-  new_kek sym ex_rnd (ex_ep STR_DH 16 (ex_pub kl)) = Ok (kek, kid) /\ get_kek sym (ex_es STR_DH 16) kid = Ok kek.
+  new_kek sym ex_rnd (ex_ep_dh kl 16 (ex_pub kl)) = Ok (kek, kid) /\ get_kek sym (ex_es_dh kl 16) kid = Ok kek.
 Proof. exact agree_dh_example. Qed.
+(* the new hypotheses of C03_agree_dh are met by that instance (parameters carried, both public values valid) and the
+   validity predicate excludes exactly the degenerate values *)
+Example C03_dh_params_example : forall kl, kl = 2 \/ kl = 5 -> dh_group_params (ex_sp kl) kl 65521 17.
+Proof. exact ex_sp_params. Qed.
+Example C03_dh_pub_valid_example :
+  dh_pub_valid 65521 (dh_public 65521 17 ex_y) /\ dh_pub_valid 65521 (dh_public 65521 17 (OS2IP (ex_rnd 2))).
+Proof. exact ex_pub_valid. Qed.
+Example C03_dh_pub_degenerate : ~ dh_pub_valid 65521 0 /\ ~ dh_pub_valid 65521 1 /\ ~ dh_pub_valid 65521 65520.
+Proof. exact ex_pub_degenerate. Qed.
 Example C03_leading_zero_example : dh_shared 65521 2 17 1 = [0; 17] /\ len (dh_shared 65521 2 17 1) = 2.
 Proof. exact leading_zero_shared. Qed.
 Example C03_ecdh_example : exists kek kid, new_kek sym ex_rnd ex_epE = Ok (kek, kid) /\ get_kek sym ex_esE kid = Ok kek.
